@@ -376,9 +376,9 @@ func explore(i *interpreter, fn *ssa.Function, e *Explorer) {
 			}
 			continue
 		}
-		if e.shardN > 1 && e.pos <= e.shardDepth && len(e.trail) <= e.shardDepth {
-			// a path with fewer forks than the shard depth belongs to shard 0
-			if e.shardW != 0 {
+		if e.curN > 1 {
+			// the path ended while several workers still share it: it belongs to member 0
+			if e.curW != 0 {
 				e.Candidates = e.Candidates[:ncand]
 				if !e.next() {
 					return
